@@ -5,8 +5,9 @@ import Uquic.Model.Wire.MoreVarint
 
 set_option linter.unusedSimpArgs false
 
-namespace Uquic.Proofs.Wire
-open Uquic.Model.Wire Uquic.Model.Wire.Varint
+namespace Uquic.Proofs.WireMore
+open Uquic.Proofs.Wire
+open Uquic.Model.Wire Uquic.Model.Wire.Varint Uquic.Model.Wire.Varint.BR
 
 theorem pow_class (x : Nat) (h : x < 256) :
     (x / 64 = 0 ∧ 2 ^ (x / 64) = 1) ∨ (x / 64 = 1 ∧ 2 ^ (x / 64) = 2) ∨ (x / 64 = 2 ∧ 2 ^ (x / 64) = 4)
@@ -96,4 +97,4 @@ theorem readBR_eq_read (b : Bytes) : (readBR b).1 = (Varint.read b).1 ∧ b.leng
     rw [readBR_of_parse_error b e h]
     cases b <;> simp
 
-end Uquic.Proofs.Wire
+end Uquic.Proofs.WireMore
